@@ -2,14 +2,19 @@
 (* Exhaustive check of the timer store (IvTimerHeap): every sequence of
    iv_timer_register (expiry from 1..NExp, so equal keys occur), of
    iv_timer_unregister of ANY stored timer (root, last, interior) and of
-   iv_run_timers passes, up to MaxLevel operations and MaxT timers.
+   iv_run_timers passes, with at most MaxT timers, to a depth of MaxLevel
+   operations (the configurations set MaxLevel beyond the diameter, i.e. the
+   search is a complete reachability analysis, histories of any length).
 
-   Timer identities do not influence the algorithm, so a registration always
-   takes the lowest free id (every history is a renaming of such a history).
+   Timer identities do not influence the algorithm; states are kept modulo
+   renaming (IvTimerHeap!Canon), a registration takes the lowest free id.
 
-   The Next disjuncts are the same two operations classified by what they did
-   (tree growth / lazy allocation, level removal, sift direction, p == m), so
-   that `-coverage 1` proves that all of these paths were taken. *)
+   The Next disjuncts are the same operations classified by what they will do
+   (tree growth / lazy allocation, level removal, sift direction, p == m).
+   The class is PREDICTED from the abstract heap (cheap guard) and the outcome
+   of the transcribed code must agree (assertion), so `-coverage 1` proves
+   that each of these paths was taken and each prediction is an independent
+   statement of what the operation has to do. *)
 EXTENDS IvTimerHeap
 
 CONSTANTS MaxT, NExp, MaxLevel
@@ -23,15 +28,29 @@ NextId == CHOOSE t \in Free : \A u \in Free : t <= u
 
 Init == h = Init0 /\ reg = {}
 
-RegClass(a, b, t) ==
+(* does the leaf that holds `index` exist already? *)
+RECURSIVE Exists(_, _, _, _)
+Exists(a, r, i, index) ==
+  IF r = NULL THEN FALSE ELSE IF i = 0 THEN TRUE
+  ELSE Exists(a, a.nd[r][Shr(index, i * SplitBits) % Arity], i - 1, index)
+
+RegPredict(a, e) ==
+  LET k == a.n + 1 IN
+  << IF Grows(a, k) THEN "grow" ELSE IF ~Exists(a, Root(a), a.depth, k) THEN "alloc" ELSE "plain",
+     IF k > 1 /\ a.ex[Slot(a, k \div 2)] > e THEN "up" ELSE "stay" >>
+
+RegOutcome(a, b, t) ==
   << IF b.depth > a.depth THEN "grow" ELSE IF b.alloc # a.alloc THEN "alloc" ELSE "plain",
      IF b.ix[t] < b.n THEN "up" ELSE "stay" >>
 
 Reg(e, c) ==
   /\ Free # {}
+  /\ RegPredict(h, e) = c
   /\ LET t == NextId
          b == Register(h, t, e)
-     IN RegClass(h, b, t) = c /\ h' = b /\ reg' = reg \cup {t}
+     IN /\ Assert(RegOutcome(h, b, t) = c, <<"register did not do what the heap requires", c>>)
+        /\ h' = Canon(b)
+        /\ reg' = 1..(h.n + 1)
 
 RegGrowUp(e)    == Reg(e, <<"grow", "up">>)
 RegGrowStay(e)  == Reg(e, <<"grow", "stay">>)
@@ -40,18 +59,32 @@ RegAllocStay(e) == Reg(e, <<"alloc", "stay">>)
 RegPlainUp(e)   == Reg(e, <<"plain", "up">>)
 RegPlainStay(e) == Reg(e, <<"plain", "stay">>)
 
-UnClass(a, b, t) ==
+UnPredict(a, t) ==
+  LET i    == a.ix[t]
+      x    == a.ex[Slot(a, a.n)]           \* key of the replacement
+      m    == a.n - 1                      \* population afterwards
+  IN << IF i = a.n THEN "last"                                         \* p == m
+        ELSE IF i > 1 /\ a.ex[Slot(a, i \div 2)] > x THEN "up"
+        ELSE IF \E c \in {2 * i, 2 * i + 1} : c <= m /\ a.ex[Slot(a, c)] < x THEN "down"
+        ELSE "stay",
+        IF LevelBoundary(a) THEN "level" ELSE "nolevel" >>
+
+UnOutcome(a, b, t) ==
   LET i    == a.ix[t]
       last == Slot(a, a.n)
-  IN << IF i = a.n THEN "last"                    \* p == m
-        ELSE IF b.ix[last] < i THEN "up"          \* the replacement moved towards the root
+  IN << IF i = a.n THEN "last"
+        ELSE IF b.ix[last] < i THEN "up"
         ELSE IF b.ix[last] > i THEN "down"
         ELSE "stay",
         IF b.depth < a.depth THEN "level" ELSE "nolevel" >>
 
 Unreg(t, c) ==
-  LET b == Unregister(h, t)
-  IN UnClass(h, b, t) = c /\ h' = b /\ reg' = reg \ {t}
+  /\ t \in reg
+  /\ UnPredict(h, t) = c
+  /\ LET b == Unregister(h, t)
+     IN /\ Assert(UnOutcome(h, b, t) = c, <<"unregister did not do what the heap requires", c>>)
+        /\ h' = Canon(b)
+        /\ reg' = 1..(h.n - 1)
 
 UnLastLevel(t) == Unreg(t, <<"last", "level">>)
 UnLast(t)      == Unreg(t, <<"last", "nolevel">>)
@@ -68,19 +101,20 @@ PopOK(a, r, now) ==
   /\ \A k \in 1..(Len(r.q) - 1) : a.ex[r.q[k]] <= a.ex[r.q[k + 1]]
   /\ \A t \in Stored(r.h) : a.ex[t] > now
   /\ {r.q[k] : k \in 1..Len(r.q)} \cup Stored(r.h) = Stored(a)
+  /\ Len(r.q) + r.h.n = a.n
 
 Fire(now) ==
   LET r == RunTimers(h, now, <<>>)
       gone == {r.q[k] : k \in 1..Len(r.q)}
   IN /\ Len(r.q) > 0
      /\ Assert(PopOK(h, r, now), <<"iv_run_timers pops out of order", r.q>>)
-     /\ h' = [r.h EXCEPT !.ix = [t \in Timers |-> IF t \in gone THEN -1 ELSE r.h.ix[t]]]
-     /\ reg' = reg \ gone
+     /\ h' = Canon([r.h EXCEPT !.ix = [t \in Timers |-> IF t \in gone THEN -1 ELSE r.h.ix[t]]])
+     /\ reg' = 1..r.h.n
 
 Next ==
   \/ \E e \in Exps : \/ RegGrowUp(e) \/ RegGrowStay(e) \/ RegAllocUp(e)
                      \/ RegAllocStay(e) \/ RegPlainUp(e) \/ RegPlainStay(e)
-  \/ \E t \in reg : \/ UnLastLevel(t) \/ UnLast(t) \/ UnUpLevel(t) \/ UnUp(t)
+  \/ \E t \in TimerSet : \/ UnLastLevel(t) \/ UnLast(t) \/ UnUpLevel(t) \/ UnUp(t)
                     \/ UnDownLevel(t) \/ UnDown(t) \/ UnStayLevel(t) \/ UnStay(t)
   \/ \E now \in Exps : Fire(now)
 
